@@ -42,6 +42,13 @@ void SelectLoop::runLoop(Mode mode)
 {
     RECORD_EVENT();
 
+    //! a second runLoop() on a running loop (from one of its own callbacks, or from another thread) would
+    //! replace the wake-up eventfd, swap the batch being executed back into the queue and leave the first loop deaf
+    if (isRunning()) {
+        LogWarn("runLoop() called while the loop is running, ignored");
+        return;
+    }
+
     runThisBeforeLoop();
 
     keep_running_ = (mode == Loop::Mode::kForever);
